@@ -1039,6 +1039,57 @@ func c19Round(r *Run, rng *gen.Rng, st *c19Stats, corpus []string, roundSize, sw
 		}
 		next = append(next, &c)
 	}
+	// a SECOND invocation in the world the first one left behind (whatever it left: outputs,
+	// temporary files, anything under $HOME or $TMPDIR), after the input was edited to another
+	// program of exactly the same size: the command has no memory, the answer is the library's
+	// answer for the file as it is now
+	for n, i := range order {
+		inv, rs := invs[i], res[i]
+		if n%5 != 1 || !inv.Valid || rs.Exit != 0 {
+			continue
+		}
+		c := *inv
+		c.Family = "second-invocation"
+		img := map[string]simrt.FileSpec{}
+		for _, f := range inv.Spec.Files {
+			img[path.Clean(f.Path)] = f
+		}
+		for p, d := range finalImage(rs.Journal) {
+			switch d.Res {
+			case "absent":
+				delete(img, p)
+			case "dir":
+				img[p] = simrt.FileSpec{Path: p, Dir: true}
+			case "link":
+				img[p] = simrt.FileSpec{Path: p, Link: string(d.Data)}
+			default:
+				img[p] = simrt.FileSpec{Path: p, Data: append([]byte{}, d.Data...)}
+			}
+		}
+		in := absJoin(inv.Spec.Cwd, inv.InArg)
+		f, ok := img[in]
+		if !ok || f.Link != "" || f.Dir {
+			continue
+		}
+		edited := append([]byte{}, f.Data...)
+		if k := bytes.IndexAny(edited, "0123456789"); k >= 0 {
+			edited[k] = '0' + (edited[k]-'0'+1)%10
+		} else {
+			edited = append([]byte("print(7)\n"), edited...)
+		}
+		img[in] = simrt.FileSpec{Path: in, Data: edited}
+		c.Spec.Files = nil
+		for _, p := range sortedKeys(img) {
+			c.Spec.Files = append(c.Spec.Files, img[p])
+		}
+		if rng.Chance(50) && len(c.Targets) > 0 {
+			c.Targets = []string{rng.Pick([]string{"bash", "batch"})}
+			args := []string{"tsh", "-i", c.InArg, "-o", c.OutArg, "-t", c.Targets[0]}
+			c.Spec.Args = args
+			c.OptShape = "-i -o -t"
+		}
+		next = append(next, &c)
+	}
 	for _, i := range order {
 		inv, rs := invs[i], res[i]
 		ioEvents := []simrt.TraceEv{}
